@@ -1,9 +1,12 @@
 #!/bin/bash
 # Runs every registered check of a tier (default quick) in /verif against /repo and prints one line per check.
+# The thorough tier writes its evidence to evidence/thorough/ so that evidence/<id>.json keeps describing the quick run.
 cd "$(dirname "$0")/.."
-TIER=${1:-quick}
-for id in $(python3 -c "import json; print(' '.join(c['property_id'] for c in json.load(open('MANIFEST.json'))['checks']))"); do
+TIER=${1:-quick}; shift
+[ "$TIER" = thorough ] && export VERIF_EVIDENCE=$PWD/evidence/thorough
+IDS=${*:-$(python3 -c "import json; print(' '.join(c['property_id'] for c in json.load(open('MANIFEST.json'))['checks']))")}
+for id in $IDS; do
   s=$(date +%s)
-  python3 checks/$(echo $id | tr 'A-Z' 'a-z').py $TIER > .work/runall-$id.log 2>&1; rc=$?
-  echo "$id rc=$rc $(( $(date +%s) - s ))s $(grep -c '^VIOLATION' .work/runall-$id.log) violation(s) $(grep -c '^KNOWN-FINDING' .work/runall-$id.log) known"
+  python3 checks/$(echo $id | tr 'A-Z' 'a-z').py $TIER > .work/runall-$TIER-$id.log 2>&1; rc=$?
+  echo "$id rc=$rc $(( $(date +%s) - s ))s $(grep -c '^VIOLATION' .work/runall-$TIER-$id.log) violation(s) $(grep -c '^KNOWN-FINDING' .work/runall-$TIER-$id.log) known"
 done
